@@ -112,36 +112,39 @@ prop(
 
 prop(
     'C03',
-    ['A3', 'A4', 'T1', 'T2', 'M1', 'M3', 'M6'],
+    ['A3', 'A4', 'T1', 'T2', 'N2', 'M1', 'M3', 'M6'],
     explanation=(
         'A3: each of the 13 expression-typed child fields is narrowed on construction to exactly its parameter type (cast '
         'converter or forcing validator; operand1 vs parameter1, operand2 vs parameter2), both sides of =/!= are unified and '
         'stored back, bound-variable occurrences are checked against the domain element type. A4: operator/function nodes '
         'take data_type from the definition, default_data_type per class, literal type by value kind, own-type validator. '
         'T1/T2: parameter and result types of 18 operators and 27 functions equal the reference. M1/M3/M6: parser and '
-        'rewriter create nodes only through those validating constructors. Not decided: _all_refs_same_type beyond presence.'
+        'rewriter create nodes only through those validating constructors. N2: the same-reference check folds a running '
+        'intersection over all occurrences of a reference and is reached from the expression validator.'
     ),
 )
 
 prop(
     'C04',
-    ['T1n', 'T2n', 'A3n', 'L2', 'L3', 'G3', 'D1'],
+    ['T1n', 'T2n', 'A3n', 'N1', 'A8', 'L2', 'L3', 'G3', 'D1'],
     explanation=(
         'Necessary conditions only: no operator/function parameter type or child-field constraint is narrower than the '
         'reference (T1n/T2n/A3n), no overload is missing, compatibility decisions are intersections (L2/L3: cast/can_be), '
-        'every grammatical operator has a table row (G3), alias availability along the binding chain is not lost (D1). '
+        'every grammatical operator has a table row (G3), alias availability along the binding chain is not lost (D1), no '
+        'equality/subset test between type sets dominates a rejection (N1), constants are read as (token, value)[0] (A8). '
         'Not decided: completeness of inference for every term; schema side is C17.'
     ),
 )
 
 prop(
     'C05',
-    ['T1w', 'T2w', 'A3p', 'M6'],
+    ['T1w', 'T2w', 'A3p', 'N2', 'N3', 'M6'],
     explanation=(
         'Necessary conditions only: no operator/function parameter type is wider than the reference and no overload was '
         'added (T1w/T2w); every expression-typed child slot has a constraint that is not wider than its parameter type '
-        '(A3p); the parser builds through constructors (M6). Not decided: cross-conjunct reference clashes beyond presence '
-        'of the check, arity logic inside FunctionSignature.accepts.'
+        '(A3p); the parser builds through constructors (M6); N2 the same-reference check folds a running intersection '
+        'over all occurrences; N3 overload acceptance rejects too few arguments unconditionally, too many unless variadic, '
+        'and tests every argument with can_be. Not decided: value-level behaviour of the inference on every term.'
     ),
 )
 
@@ -200,23 +203,28 @@ prop(
 
 prop(
     'C14',
-    ['X1', 'X2', 'X3b', 'X5r'],
+    ['X1', 'X2', 'X3b', 'X3c', 'S3', 'X5r'],
     explanation=(
         'X1 definite assignment over all 614 functions; X2 call.arguments[k] vs the smallest overload of the function the '
         'branch dispatches on; X3b explicit raises of rewrite.py are the documented ones; X5r assert census of everything '
-        'reachable from the public rewrite functions (informational). Not decided: TypeError/HplSanityError from '
-        're-validation inside copies (assumed infeasible for valid inputs), shape assertions.'
+        'reachable from the public rewrite functions (informational); X3c every but()/construction site in rewrite.py of a '
+        'class with semantic validators (sanity, presence, hygiene: derived from the raise classes of its validators) either '
+        'leaves the fields those validators read untouched or is justified by a checked fact (alternative of the same '
+        'field; same variable/domain and a body part that mentions the variable); S3 the contains_reference queries that the '
+        'shape assertions rely on cover every slot. Not decided: TypeError from re-validation of operand types (assumed), '
+        'the remaining shape assertions.'
     ),
 )
 
 prop(
     'C17',
-    ['S5', 'F3', 'T5', 'A5', 'X8'],
+    ['S5', 'F3', 'T5', 'A5', 'A8', 'A9', 'X8'],
     explanation=(
         'S5 the generic walk pushes all children of every non-accessor node and accessors visit object chain and index; F3 '
         'provenance of the alias -> type mapping; T5 (u)intN bounds computed from the bit width; A5 token validators '
-        '(max>=min, length>=-1, contains_index, enumerated kinds, base types); X8 no Mapping iterated as pairs without '
-        '.items(). Not decided: the iff for every schema, comparison results inside _get_next_token.'
+        '(max>=min, length>=-1, contains_index, enumerated kinds, base types); A8 constants are read as (token, value)[0], '
+        'contains_name reads both tables, get_type_of prefers fields; A9 leaf_fields composes full dotted paths (recursive or '
+        'prefix-carrying work list); X8 no Mapping iterated as pairs without .items(). Not decided: the iff for every schema, comparison results inside _get_next_token.'
     ),
 )
 
